@@ -286,6 +286,40 @@ func gen(tier, prop string, out *vlib.Out) {
 			out.Line("new aim prop=C12 id=0 fam=f2 init=1 q=8 core=2 max=3 rate=- ord=cmr idlelo=1 idlehi=2000 tasks=6 runs=%d stop=10 seed=%d", 3000, r.Intn(1000000))
 		}
 	}
+	// directed scenarios (seeded defects C11-a, C12-a; DESIGN Appendix B): one line each, many rounds
+	rd := r.Fork()
+	if prop == "C11" {
+		reps := 90
+		if tier == "thorough" {
+			reps = 900
+		}
+		for _, cfg := range []string{
+			"init=1 q=64 core=- max=3 rate=- idle=0 ord=cmr subs=16",
+			"init=1 q=64 core=- max=2 rate=- idle=0 ord=cmr subs=12",
+			"init=2 q=32 core=3 max=4 rate=0 idle=0 ord=cmr subs=16",
+			"init=1 q=16 core=2 max=3 rate=250 idle=0 ord=mcr subs=8",
+			"init=2 q=64 core=- max=3 rate=- idle=0 ord=cmr subs=16",
+			"init=3 q=64 core=- max=- rate=- idle=0 ord=cmr subs=16",
+		} {
+			out.Line("new burst prop=C11 id=0 %s reps=%d seed=%d", cfg, reps, rd.Intn(1000000))
+		}
+	}
+	if prop == "C12" {
+		rounds := 60
+		if tier == "thorough" {
+			rounds = 600
+		}
+		for _, cfg := range []string{
+			"init=2 q=4 core=- max=- rate=- idle=0 ord=cmr busy=1 park=100 order=sr",
+			"init=2 q=4 core=- max=- rate=- idle=0 ord=cmr busy=1 park=0 order=sr",
+			"init=2 q=1 core=- max=- rate=- idle=0 ord=cmr busy=1 park=100 order=c",
+			"init=3 q=4 core=- max=- rate=- idle=0 ord=cmr busy=2 park=100 order=sr",
+			"init=1 q=4 core=- max=2 rate=- idle=0 ord=cmr busy=1 park=150 order=sr",
+			"init=2 q=4 core=- max=- rate=- idle=0 ord=cmr busy=1 park=50 order=rs",
+		} {
+			out.Line("new handoff prop=C12 id=0 %s rounds=%d seed=%d", cfg, rounds, rd.Intn(1000000))
+		}
+	}
 	id := 1
 	rs, rc := r.Fork(), r.Fork()
 	for i := 0; i < nseq; i++ {
